@@ -67,11 +67,17 @@ package labels
 // Trusted (unsafe code): after copying b.data and setExportedVars, the new block's Labels and
 // SBIndices are fresh views with the same contents as b's.
 
-// setExportedVars re-derives Labels/NumSBLabels/SBIndices/SBValues as unsafe views of b.data
-// (trusted here for its frame only: it changes nothing but the receiver's fields; its panic
-// freedom on malformed data is the C20 obligation, checked separately).
+// setExportedVars re-derives Labels/NumSBLabels/SBIndices/SBValues as unsafe views of b.data.
+// C20: it must not panic for ANY content of b.data (the bytes come straight from a request).
 //@ func Block.setExportedVars
-//@   trusted
+//@   prop C20
+//@   requires b != nil && len(b.data) >= 24 && len(b.data) < 2147483648
+//@   modifies b.*
+//@   invariant loop 1: numSubBlockIndices == uint32(totalIndices) && totalIndices <= 65535 * uint64(rangeindex + 1)
+
+//@ func Block.UnmarshalBinary
+//@   prop C20
+//@   requires b != nil && len(data) < 2147483648
 //@   modifies b.*
 
 //@ func Block.MergeLabels
